@@ -787,6 +787,10 @@ def small_rewrites(t):
                 return ("call", ("glob", "numpy.sum"), (("bin", "*", t[2][0], t[2][1]),), ())
             if n == "builtins.getattr" and len(t[2]) == 2 and is_const(t[2][1]) and isinstance(t[2][1][2], str):
                 return ("attr", t[2][0], t[2][1][2])
+            if n == "operator.itemgetter" and len(t[2]) == 1 and not t[3] and is_const(strip(t[2][0])):
+                # operator.itemgetter(k) == lambda x: x[k]
+                lamid = ("#itemgetter", repr(strip(t[2][0])[2]))
+                return ("lam", lamid, (("x", None, "pos"),), ("sub", ("lparam", lamid, "x"), strip(t[2][0])))
             if n == "builtins.len" and len(t[2]) == 1 and not t[3]:
                 x = strip(t[2][0])
                 if head(x) == "sub" and strip(x[2]) == ("slice", NONE, NONE, const(-1)):
